@@ -84,6 +84,20 @@ def run(ctx, rep):
     rep.rule("C05.pairing", "frames created = dropped; every fwd(x) undone by Back(x) with the same expression")
     rep.rule("C05.unwinder", "deferred CallStack::V runs the machine operation of the same name")
     rep.rule("C05.jet", "exec_jet frame widths come from source_ty/target_ty of the same jet")
+    rep.rule("C05.value", "values enter machine memory in the padded encoding (one cell per bit of the type's width)")
+    wv = F.fn(tmpl.BM + "write_value")
+    if wv is None:
+        rep.anchor("C05.value", "BitMachine::write_value")
+    else:
+        wv = F.inlined(wv, ("iter_padded", "iter_compact", "write_bit", "write_u8"))
+        forms = {cs.name for cs in wv.calls() if cs.name in ("iter_padded", "iter_compact")}
+        for c in F.closures_of(wv):
+            forms |= {cs.name for cs in c.calls() if cs.name in ("iter_padded", "iter_compact")}
+        if forms == {"iter_padded"}:
+            rep.ok("C05.value", "write_value writes iter_padded()", None)
+        else:
+            rep.violation("C05.value", "write_value", "BitMachine::write_value writes %s: frames are sized by the type's bit width (the padded layout), so a witness, word "
+                          "or input whose type has sum padding would be laid out wrongly" % (sorted(forms) or "no value iterator"), wv.where())
     try:
         r = tmpl.extract(F)
     except tmpl.TemplateError as e:
